@@ -1,6 +1,7 @@
 import Tahoe.Immutable.FetchLemmasC03
 import Tahoe.Immutable.SegLemmas
 import Tahoe.Immutable.SysLemmas
+import Tahoe.Immutable.FetchLemmasC46
 /-! C03 — immutable availability with k good shares (property theorems over the SegmentFetcher
 event system `Tahoe.Fetch`; helper lemmas in `Tahoe/Immutable/FetchLemmas*.lean`).
 
@@ -19,6 +20,7 @@ interleaving.
 | … whatever happens to the other shares / servers: missing, corrupted, erroring, disconnecting mid-read | same theorem: `Fair` lets every non-good share answer CORRUPT / DEAD / BADSEGNUM at any time, any placement (several shares per server), any interleaving; *that share.py / finder.py turn those faults into exactly these events* is the assumption `Fair` — monitor only (end-to-end fault schedules) |
 | … or answering late | `Fair` allows OVERDUE before the terminal event of any share (theorem); late DYHB answers / finder overdue timers: monitor only (ShareFinder not modelled) |
 | the read (not just one segment fetch) succeeds, whatever the reader's segment-size guess | read layer: `genuine_segment_is_accepted` (a genuine answer is accepted and makes progress), `C46.bad_segnum_retry` (a wrong guess costs one retry with the real size), `C46.read_writes_exact_range` (success ⇒ exactly the requested range was written); node layer: `C46.no_stuck_state`.  composed system: `composed_read_delivers_exact_range`, `C46.every_read_terminates`; success (not just termination) inside the composed system: `read_succeeds_partial` below |
+| a share announced while no fetcher runs (late get_buckets answer after a read, between segments, during a pause) is available to every later fetcher (seeded C03-e) | `got_shares_always_recorded`, `new_fetcher_starts_with_known_live_shares` (node model; `Sys` forwards `gotShares` to it); end-to-end: late-dyhb corpus + family (monitor) |
 | < k distinct good shares reachable ⇒ the read fails with a not-enough-shares error | `too_few_fail` (fetcher: `fetch_failed(NotEnoughShares | NoShares)`); node layer retires the requests with that Failure (`C46.no_stuck_state` + correspondence); Segmentation passes it to the read's errback (`C46.bad_segnum_retry`, second part) |
 | … instead of returning data | `too_few_fail`, second conjunct (no prefix of the run calls `process_blocks`); that delivered bytes are right is C02 |
 | quantifier: all placements on up to N+3 servers, all subsets of failed shares, failures before/during/after block fetches, all response orders and overdue firings | theorems quantify over all event lists satisfying `Fair` (no bound); server-level faults reach the model only as share events — monitor only for the mapping |
@@ -176,6 +178,32 @@ theorem composed_step_writes_contiguous (s : Seg) (k : Bool) (e : SEv) (hd : s.r
     contigEnd s.offset (writesOf (segStep { s with out := [] } k e).out) =
       some (segStep { s with out := [] } k e).offset :=
   (rangeinv_seg s k e hd).2.2
+
+
+/-- **C03, shares announced at any time are kept.**  `DownloadNode.got_shares` adds the shares to
+`_shares` unconditionally — whether a SegmentFetcher is running or the node is idle (after a read,
+between segments, during a consumer's pause) — and nothing removes them: after `got_shares(l)` in
+any state and any further history, every share of `l` is in the node's share set. -/
+theorem got_shares_always_recorded (n : Node) (l : List Share) (es : List NEv) (sh : Share) (hsh : sh ∈ l) :
+    sh ∈ (nrun (nstep n (.gotShares l)) es).known :=
+  known_nrun es _ sh (known_nstep n (.gotShares l) sh (Or.inr ⟨l, rfl, hsh⟩))
+
+/-- … and every fetcher started later begins with all known shares that are still alive
+(`_start_new_segment`: `[s for s in self._shares if s.is_alive()]`), so a share that was announced
+while no fetcher ran is available to the next segment / the next read. -/
+theorem new_fetcher_starts_with_known_live_shares (n : Node) (sh : Share) (seg req : Nat) (rest : List (Nat × Nat))
+    (hk : sh ∈ n.known) (hd : n.dead.contains sh = false) (hidle : n.active = none)
+    (hreq : n.requests = (seg, req) :: rest) :
+    ∃ a, (startNewSegment n).active = some a ∧ a.segnum = seg ∧ sh ∈ a.f.shares := by
+  simp only [startNewSegment, hidle, hreq]
+  refine ⟨_, rfl, rfl, ?_⟩
+  have hnd : sh ∉ n.dead := by simpa using hd
+  simp [addShares, init, mem_sortShares, List.mem_filter, hk, hnd]
+
+/-- an idle node is told about a share; the fetcher of a later request starts with it -/
+example : (nstep (initNode 2 3 []) (.gotShares [⟨7, 1, 2, 0⟩])).known = [⟨7, 1, 2, 0⟩] ∧
+    ((nstep (nstep (initNode 2 3 []) (.gotShares [⟨7, 1, 2, 0⟩])) (.getSegment 1 9)).active.map (·.f.shares))
+      = some [⟨7, 1, 2, 0⟩] := by decide
 
 /-! ### concrete instances (the hypotheses are satisfiable, the conclusions are the expected ones) -/
 
